@@ -140,6 +140,82 @@ def h_accessors(F, R):
                 rhs = strip(rhs["e"])
             okk = x["k"] == "Assign" and (const_eval(rhs) == 0 or (rhs.get("k") == "Var" and rhs["var"]["id"] in byte_ids))
             R.check(okk, "H-accessors", "validator/index-source/assign", "the cached separator index is assigned `%s` (expected 0 or the running byte index)" % pp(x["r"])[:60], where=loc(x))
+    # the validator compares characters with characters: a `char as u8` (or u16) truncates and lets other code points pass for
+    # the ASCII prefix / separator, after which the cached index is no longer where the accessors expect it
+    for x in walk_all(vb):
+        if x.get("k") == "Cast" and (x.get("from_ty") or "") == "char" and x.get("ty") in ("u8", "u16"):
+            R.fail("H-accessors", "validator/char-truncation", "is_invalid casts a character to %s (`%s`): characters whose low bits equal an ASCII "
+                   "character are then taken for it" % (x.get("ty"), pp(x)[:60]), where=loc(x))
+    # unit consistency: positions counted in characters and positions counted in bytes are never compared, added or stored into
+    # the same variable (a filter with a multi-byte character before a separator would otherwise be judged at the wrong place)
+    kind = {}
+    for vid in char_ids:
+        kind[vid] = "char"
+    for vid in byte_ids:
+        kind[vid] = "byte"
+
+    def kind_of(ex):
+        ex = strip(ex)
+        k_ = ex.get("k")
+        if k_ == "Var":
+            return kind.get(ex["var"]["id"])
+        if k_ == "Cast":
+            return kind_of(ex["e"])
+        if k_ == "Call" and ex["fn"].get("name") == "len" and ex["args"] and "str" in ((ex["args"][0].get("ty") or "") + (strip(ex["args"][0]).get("ty") or "")):
+            return "byte"
+        if k_ == "Call" and ex["fn"].get("name") in ("len_utf8",):
+            return "byte"
+        if k_ == "Binary" and ex["op"] in ("Add", "Sub"):
+            a_, b_ = kind_of(ex["l"]), kind_of(ex["r"])
+            return a_ or b_
+        if k_ == "Adt" and ex.get("variant") == "Some" and ex.get("fields"):
+            return kind_of(ex["fields"][0]["e"])
+        if k_ in ("Block",) and ex.get("expr") is not None:
+            return kind_of(ex["expr"])
+        if k_ == "Call" and ex["fn"].get("name") in ("map", "unwrap_or", "unwrap_or_default", "copied", "cloned", "as_ref", "unwrap", "expect") and ex["args"]:
+            return kind_of(ex["args"][0])          # `last_sep.map(|v| v + 2)`: the position kept in the Option, shifted by a constant
+        return None
+    for _round in range(4):
+        for x in walk_all(vb):
+            if x.get("k") in ("Assign", "AssignOp") and strip(x["l"]).get("k") == "Var":
+                kk = kind_of(x["r"])
+                vid = strip(x["l"])["var"]["id"]
+                if kk and vid not in kind:
+                    kind[vid] = kk
+            if x.get("k") == "Block":
+                for st in x.get("stmts", []):
+                    if st.get("k") == "Let" and st.get("init") is not None and st["pat"].get("k") == "Binding":
+                        kk = kind_of(st["init"])
+                        if kk and st["pat"]["var"]["id"] not in kind:
+                            kind[st["pat"]["var"]["id"]] = kk
+            if x.get("k") in ("Match", "If"):
+                # `if let Some(pos) = last_sep` / `match last_sep { Some(pos) => .. }`
+                pairs = []
+                if x.get("k") == "If" and unblock(x["cond"]).get("k") == "Let":
+                    pairs.append((unblock(x["cond"])["pat"], unblock(x["cond"])["e"]))
+                if x.get("k") == "Match":
+                    pairs += [(a["pat"], x["scrut"]) for a in x["arms"]]
+                for pat_, scr in pairs:
+                    kk = kind_of(scr)
+                    q_ = pat_
+                    while q_.get("k") in ("Deref",):
+                        q_ = q_["sub"]
+                    if kk and q_.get("k") == "Variant" and q_.get("subs") and q_["subs"][0]["pat"].get("k") == "Binding":
+                        kind.setdefault(q_["subs"][0]["pat"]["var"]["id"], kk)
+    mixed = []
+    for x in walk_all(vb):
+        if x.get("k") == "Binary" and x["op"] in ("Eq", "Ne", "Lt", "Le", "Gt", "Ge", "Add", "Sub"):
+            a_, b_ = kind_of(x["l"]), kind_of(x["r"])
+            if a_ and b_ and a_ != b_:
+                mixed.append((pp(x)[:70], loc(x)))
+        if x.get("k") in ("Assign", "AssignOp") and strip(x["l"]).get("k") == "Var":
+            kk = kind_of(x["r"])
+            have = kind.get(strip(x["l"])["var"]["id"])
+            if kk and have and kk != have:
+                mixed.append((pp(x)[:70], loc(x)))
+    R.check(not mixed, "H-accessors", "validator/unit-consistency",
+            "is_invalid mixes positions counted in characters with positions counted in bytes: %s" % "; ".join(m_[0] for m_ in mixed[:3]),
+            where=mixed[0][1] if mixed else adt + "::is_invalid")
     R.check(n_ret >= 1, "H-accessors", "validator/index-source/returns", "is_invalid has no (bool, index) return value the rule recognises", where=adt + "::is_invalid")
     R.note("H-accessors does not decide that the index returned by is_invalid is the '/' that ends the share name (C16 territory); "
            "the two validator facts are checked only when the validator still has a `char_idx` bound / `byte_idx` advance")
